@@ -116,6 +116,9 @@ META = dict(
 )
 
 
+META["rule"] += (
+    " " + 'Added after the second round of seeded changes: CouplingAnalysis receives the data in the representation a caller may hold it in (Fortran order, strided view, read-only, float32 / int64 when exact).')
+
 # --------------------------------------------------------------------------
 # helpers
 # --------------------------------------------------------------------------
